@@ -177,3 +177,123 @@ Definition check_protokinds (fs : list field) : verdict :=
 Definition check_1591 (fs : list field) : verdict := check_protokinds fs.
 Definition check_791 (fs : list field) : verdict := check_protokinds fs.
 Definition check_2091 (fs : list field) : verdict := check_protokinds fs.
+
+(* ------------------------------------------------------------------ thrift/binary.go: in-place leaf writers, envelope call sequences *)
+From DG Require Gen_thriftbin ThriftWire ThriftEnvelope.
+
+(* the first bytes of b overwritten by bs (copy semantics: never beyond len b) *)
+Definition put_prefix (b bs : list Z) : list Z := firstn (length b) bs ++ skipn (length bs) b.
+Definition opt_bytes_eqb (g : option (list Z)) (panicked : Z) (after : list Z) : bool :=
+  match g with None => panicked =? 1 | Some b => (panicked =? 0) && bytes_eqb b after end.
+Definition opt_bytes_fields (g : option (list Z)) : list field := match g with None => [FZ 1] | Some b => [FZ 0; FB b] end.
+
+(* kinds: 0 EncodeBool, 1 EncodeByte, 2 EncodeInt16, 3 EncodeInt32, 4 EncodeInt64, 5 EncodeDouble (v = bits), 6 EncodeString, 7 EncodeBinary,
+   8 EncodeFieldBegin (v = type, w = id) *)
+Definition gen_encode (kind : Z) (b : list Z) (v w : Z) (s : list Z) : option (list Z) :=
+  if kind =? 0 then Gen_thriftbin.BinaryEncoding_EncodeBool b (zb v) else if kind =? 1 then Gen_thriftbin.BinaryEncoding_EncodeByte b v
+  else if kind =? 2 then Gen_thriftbin.BinaryEncoding_EncodeInt16 b v else if kind =? 3 then Gen_thriftbin.BinaryEncoding_EncodeInt32 b v
+  else if kind =? 4 then Gen_thriftbin.BinaryEncoding_EncodeInt64 b v else if kind =? 5 then Gen_thriftbin.BinaryEncoding_EncodeDouble b v
+  else if kind =? 6 then Gen_thriftbin.BinaryEncoding_EncodeString b s else if kind =? 7 then Gen_thriftbin.BinaryEncoding_EncodeBinary b s
+  else Gen_thriftbin.BinaryEncoding_EncodeFieldBegin b v w.
+(* the model: the canonical encoding (ThriftWire.enc_int) put over the first bytes; Go panics when the fixed part does not fit *)
+Definition model_encode (kind : Z) (b : list Z) (v w : Z) (s : list Z) : option (list Z) :=
+  let '(need, bs) :=
+    if kind =? 0 then (1, [Z.b2z (zb v)]) else if kind =? 1 then (1, ThriftWire.enc_int 1 v)
+    else if kind =? 2 then (2, ThriftWire.enc_int 2 v) else if kind =? 3 then (4, ThriftWire.enc_int 4 v)
+    else if (kind =? 4) || (kind =? 5) then (8, ThriftWire.enc_int 8 v)
+    else if (kind =? 6) || (kind =? 7) then (4, ThriftWire.enc_int 4 (ThriftWire.zlen s) ++ s)
+    else (3, ThriftWire.enc_int 1 v ++ ThriftWire.enc_int 2 w) in
+  if need <=? blen b then Some (put_prefix b bs) else None.
+
+(* 1991 fields: kind, buffer before, v, w, s, panicked, buffer after *)
+Definition check_1991 (fs : list field) : verdict :=
+  match fs with
+  | [FZ kind; FB b; FZ v; FZ w; FB s; FZ panicked; FB after] =>
+    vand (expect 1 (opt_bytes_eqb (gen_encode kind b v w s) panicked after) (opt_bytes_fields (gen_encode kind b v w s)))
+         (expect 2 (opt_bytes_eqb (model_encode kind b v w s) panicked after) (opt_bytes_fields (model_encode kind b v w s)))
+  | _ => VBad 99 []
+  end.
+
+(* the write primitives of BinaryProtocol as the bytes they append (their own bodies use unsafe growth and are not translated; this
+   reading is what the comparison with the real output validates) *)
+Definition write_eff_bytes (str : list Z) (e : Z * list Z) : list Z :=
+  match e with
+  | (c, [v]) => if c =? Gen_thriftbin.Eff_WriteI32 then ThriftWire.enc_int 4 v else if c =? Gen_thriftbin.Eff_WriteI16 then ThriftWire.enc_int 2 v
+                else if c =? Gen_thriftbin.Eff_WriteByte then ThriftWire.enc_int 1 v else []
+  | (c, []) => if c =? Gen_thriftbin.Eff_WriteString then ThriftWire.enc_int 4 (ThriftWire.zlen str) ++ str else []
+  | _ => []
+  end.
+Definition writes_bytes (str : list Z) (eff : list (Z * list Z)) : list Z := flat_map (write_eff_bytes str) eff.
+
+(* kinds: 10 WriteMessageBegin(name, a = type, b = seq), 11 WriteFieldBegin(name, a = type, b = id), 12 WriteFieldStop,
+   13 WriteMapBegin(a, b, c = size), 14 WriteListBegin(a, b = size), 15 WriteSetBegin(a, b = size); every primitive succeeds (oracles 0) *)
+Definition gen_write_begin (kind : Z) (name : list Z) (a b c : Z) : Z * list (Z * list Z) :=
+  if kind =? 10 then Gen_thriftbin.BinaryProtocol_WriteMessageBegin name a b 0 0 0
+  else if kind =? 11 then Gen_thriftbin.BinaryProtocol_WriteFieldBegin name a b 0 0
+  else if kind =? 12 then Gen_thriftbin.BinaryProtocol_WriteFieldStop 0
+  else if kind =? 13 then Gen_thriftbin.BinaryProtocol_WriteMapBegin a b c 0 0 0
+  else if kind =? 14 then Gen_thriftbin.BinaryProtocol_WriteListBegin a b 0 0
+  else Gen_thriftbin.BinaryProtocol_WriteSetBegin a b 0 0.
+Definition model_write_begin (kind : Z) (name : list Z) (a b c : Z) : list Z :=
+  if kind =? 10 then ThriftWire.enc_int 4 (ThriftEnvelope.VERSION_1 + a) ++ ThriftWire.enc_int 4 (ThriftWire.zlen name) ++ name ++ ThriftWire.enc_int 4 b
+  else if kind =? 11 then a :: ThriftWire.enc_int 2 b
+  else if kind =? 12 then [0]
+  else if kind =? 13 then a :: b :: ThriftWire.enc_int 4 c
+  else a :: ThriftWire.enc_int 4 b.
+
+(* 1992 fields: kind, name, a, b, c, bytes written, error (0 nil) *)
+Definition check_1992 (fs : list field) : verdict :=
+  match fs with
+  | [FZ kind; FB name; FZ a; FZ b; FZ c; FB out; FZ err] =>
+    let '(e, eff) := gen_write_begin kind name a b c in
+    vand (expect 1 ((e =? 0) && (err =? 0) && bytes_eqb (writes_bytes name eff) out) [FB (writes_bytes name eff)])
+         (expect 2 (bytes_eqb (model_write_begin kind name a b c) out) [FB (model_write_begin kind name a b c)])
+  | _ => VBad 99 []
+  end.
+
+(* the read primitives of BinaryProtocol on (buf, pos): value, error code (0 nil), new position - next() does not advance on failure *)
+Definition rd_fixed (n : Z) (buf : list Z) (pos : Z) : option (list Z) :=
+  if pos + n <=? blen buf then Some (slice_range buf pos (pos + n)) else None.
+Definition rd_int (n : Z) (buf : list Z) (pos : Z) : Z * Z * Z :=
+  match rd_fixed n buf pos with Some bs => (ThriftWire.dec_int bs, 0, pos + n) | None => (0, Err_io_EOF, pos) end.
+Definition rd_byte (buf : list Z) (pos : Z) : Z * Z * Z :=
+  match rd_fixed 1 buf pos with Some bs => (idx bs 0, 0, pos + 1) | None => (0, Err_io_EOF, pos) end.
+Definition rd_string (buf : list Z) (pos : Z) : list Z * Z * Z :=
+  let '(n, e, p1) := rd_int 4 buf pos in
+  if negb (e =? 0) then ([], e, p1)
+  else if (n <? 0) || (n >? blen buf - p1) then ([], Gen_thriftbin.Err_errInvalidDataSize, p1)
+  else (slice_range buf p1 (p1 + n), 0, p1 + n).
+(* position after the reads of a trace *)
+Definition reads_pos (buf : list Z) (eff : list (Z * list Z)) : Z :=
+  fold_left (fun pos e =>
+    let c := fst e in
+    if c =? Gen_thriftbin.Eff_ReadI32 then snd (rd_int 4 buf pos) else if c =? Gen_thriftbin.Eff_ReadI16 then snd (rd_int 2 buf pos)
+    else if c =? Gen_thriftbin.Eff_ReadByte then snd (rd_byte buf pos) else if c =? Gen_thriftbin.Eff_ReadString then snd (rd_string buf pos) else pos) eff 0.
+
+(* kinds: 20 ReadMessageBegin -> (name, r1 = type, r2 = seq), 21 ReadFieldBegin -> (r1 = type, r2 = id), 22 ReadMapBegin -> (r1, r2, r3 = size),
+   23 ReadListBegin / 24 ReadSetBegin -> (r1 = elem, r2 = size).  Result of the generated definition fed with the primitives' answers. *)
+Definition gen_read_begin (kind : Z) (buf : list Z) (copy : bool) : list Z * Z * Z * Z * Z * list (Z * list Z) :=
+  if kind =? 20 then
+    let '(s, e1, p1) := rd_int 4 buf 0 in let '(nm, e2, p2) := rd_string buf p1 in let '(sq, e3, _) := rd_int 4 buf p2 in
+    let '(name, ty, seq, err, eff) := Gen_thriftbin.BinaryProtocol_ReadMessageBegin copy s e1 nm e2 sq e3 in (name, ty, seq, 0, err, eff)
+  else if kind =? 21 then
+    let '(t, e1, p1) := rd_byte buf 0 in let '(x, e2, _) := rd_int 2 buf p1 in
+    let '(name, ty, id, err, eff) := Gen_thriftbin.BinaryProtocol_ReadFieldBegin t e1 x e2 in (name, ty, id, 0, err, eff)
+  else if kind =? 22 then
+    let '(k, e1, p1) := rd_byte buf 0 in let '(v, e2, p2) := rd_byte buf p1 in let '(sz, e3, _) := rd_int 4 buf p2 in
+    let '(kt, vt, size, err, eff) := Gen_thriftbin.BinaryProtocol_ReadMapBegin k e1 v e2 sz e3 in ([], kt, vt, size, err, eff)
+  else
+    let '(b, e1, p1) := rd_byte buf 0 in let '(sz, e2, _) := rd_int 4 buf p1 in
+    let '(et, size, err, eff) := (if kind =? 23 then Gen_thriftbin.BinaryProtocol_ReadListBegin b e1 sz e2 else Gen_thriftbin.BinaryProtocol_ReadSetBegin b e1 sz e2) in
+    ([], et, size, 0, err, eff).
+
+(* 1993 fields: kind, buffer, copyString, name, r1, r2, r3, error (0 nil / 1), p.Read afterwards *)
+Definition check_1993 (fs : list field) : verdict :=
+  match fs with
+  | [FZ kind; FB buf; FZ copy; FB name; FZ r1; FZ r2; FZ r3; FZ err; FZ rd] =>
+    let '(gname, g1, g2, g3, gerr, eff) := gen_read_begin kind buf (zb copy) in
+    vand (expect 1 (bytes_eqb gname name && (g1 =? r1) && (g2 =? r2) && (g3 =? r3) && Bool.eqb (gerr =? 0) (err =? 0))
+                 [FB gname; FZ g1; FZ g2; FZ g3; FZ gerr])
+         (expect 2 (reads_pos buf eff =? rd) [FZ (reads_pos buf eff)])
+  | _ => VBad 99 []
+  end.
